@@ -238,10 +238,42 @@ func Build(a *ref.AP, t *sim.Tape) (mq.Packet, []Op, error) {
 			ops = out
 		}
 	}
+	// In one build out of three, read-only operations are interleaved with the
+	// setter calls (a program logs a packet with String(), sizes it, or even
+	// writes it, and then keeps filling it in): by C11 they must not matter.
+	peek := t != nil && t.Bool(1, 3)
 	for _, o := range ops {
 		if err := Apply(p, o); err != nil {
 			return nil, ops, err
 		}
+		if peek && t.Bool(1, 3) {
+			ReadOnly(p, t.Int(5))
+		}
 	}
 	return p, ops, nil
+}
+
+type discard struct{}
+
+func (discard) Write(b []byte) (int, error) { return len(b), nil }
+
+// ReadOnly performs one read-only operation on a packet (result discarded).
+// A panic inside it is swallowed here: totality of String/Dump on packets
+// under construction is not what the callers of Build are checking.
+func ReadOnly(p mq.Packet, k int) {
+	defer func() { recover() }()
+	switch k {
+	case 0:
+		_ = p.String()
+	case 1:
+		p.WriteTo(discard{})
+	case 2:
+		mq.Dump(discard{}, p)
+	case 3:
+		if w, ok := p.(mq.HasWellFormed); ok {
+			_ = w.WellFormed()
+		}
+	default:
+		_ = Observe(p)
+	}
 }
